@@ -62,9 +62,10 @@ def run(prop, tier):
         dspecs = []
         for sp in [p for p in paths if os.path.getsize(p) < 6000][:6]:
             ss = damage.specs_for(sp, open(sp, "rb").read(), C.seed(), quick=True)
-            ss = [x for k, x in ss if k.startswith("field")]
-            dspecs += ss[(C.seed() % 7)::(7 if q else 1)]
-        dspecs = dspecs[:400 if q else 6000]
+            typ = [x for k, x in ss if k in ("field:prm.type", "field:prm.ndims")]          # element-size and dimension-count bytes: all of them
+            oth = [x for k, x in ss if k.startswith("field") and k not in ("field:prm.type", "field:prm.ndims")]
+            dspecs += typ + oth[(C.seed() % 9)::(9 if q else 1)]
+        dspecs = dspecs[:2400 if q else 12000]
         dlst = os.path.join(wd, "damage.txt")
         open(dlst, "w").write("\n".join(dspecs) + "\n")
         hargs = ["--profile", "c01", "--maxops", "30", "--dump-final", "--maxdesc", "255"]
